@@ -709,8 +709,11 @@ def check_C15(ctx):
 def check_C16(ctx):
     q = ctx.quick()
     _engine_only(ctx, "C16")
-    voices = perturbed_voices(ctx, 1, "all") + [rendered_lsp_voice(ctx, 1), rendered_lsp_voice(ctx, 2)]
-    evs = laws_stage(ctx, "gain", 16 if q else 400, voices, keyfn=lambda e, run: "gain:%s" % e.get("ev"))
+    # both filter families, with and without a low-pass stream (a two-stream voice takes other excitation paths)
+    two = lambda tag, stage, salt: render_family_voice(ctx, tag, "NStates = {2}  Shapes = {3}  Salts = {%d}  Stages = {%d}  WinSets = {3}" % (salt, stage),
+                                                       lambda f: f["nstream"] == 2 and not f["gv"] and not f["quoted"])
+    voices = perturbed_voices(ctx, 1, "all") + [rendered_lsp_voice(ctx, 1), rendered_lsp_voice(ctx, 2), two("mcp2s", 0, 0), two("lsp2s", 2, 2)]
+    evs = laws_stage(ctx, "gain", 30 if q else 600, voices, keyfn=lambda e, run: "gain:%s" % e.get("ev"))
     ctx.assumptions += ["gain measured at the largest-magnitude sample of the 0 dB waveform; law stated in dB so 10^(v/20) is never computed outside jbonsai"]
     return ("model_checking",
             "MC_Deps: the volume is in no duration / trajectory / shape key. I->S: mel-cepstral (bundled, perturbed) and LSP (rendered) voices, v in [-60,60] dB: "
